@@ -699,7 +699,13 @@ func Extract(a *Term, hi, lo int) *Term {
 	switch a.Op {
 	case "bvmul", "bvadd", "bvsub":
 		if lo == 0 {
-			return bvbin(a.Op, Extract(a.Args[0], hi, 0), Extract(a.Args[1], hi, 0))
+			// only when the operands really get smaller (e.g. they are
+			// extensions): otherwise the bytes of a result could no longer
+			// be re-assembled into the result by Concat
+			ea, eb := Extract(a.Args[0], hi, 0), Extract(a.Args[1], hi, 0)
+			if ea.Op != "extract" && eb.Op != "extract" {
+				return bvbin(a.Op, ea, eb)
+			}
 		}
 	case "bvand", "bvor", "bvxor":
 		return bvbin(a.Op, Extract(a.Args[0], hi, lo), Extract(a.Args[1], hi, lo))
